@@ -33,7 +33,9 @@ def main(argv) -> int:
             check, tier, seed, shard, nshards, n = argv[3], argv[4], int(argv[5]), int(argv[6]), int(argv[7]), int(argv[8])
             chk = checks[check]
             ctx = core.Ctx(prop=prop, check=check, tier=tier, known=known)
-            if chk.enumerate is not None:
+            if chk.custom is not None:
+                chk.custom(ctx, tier, core.derive_seed(seed, prop, check, shard), shard, nshards, n)
+            elif chk.enumerate is not None:
                 core.run_enumeration(ctx, chk.enumerate(tier, shard, nshards), chk.body)
             else:
                 core.run_hypothesis(ctx, chk.strategy(), chk.body, n, core.derive_seed(seed, prop, check, shard))
